@@ -508,14 +508,18 @@ def tc(ctx: Any) -> List[Ob]:
         res = []
         for c in node.calls():
             if call_name(c) == '_insert_short_at_start' and c.args:
-                a = c.args[0]
-                t = norm(a)
-                if 'flags' in t:
-                    has_tc = any(isinstance(x, ast.BinOp) and isinstance(x.op, ast.BitOr) and any(prog.try_fold(pk.module, s) == (True, tcbit) for s in (x.left, x.right)) for x in ast.walk(a))
-                    res.append('FLAGS|TC' if has_tc else 'FLAGS')
-                elif t in ('0', f'{me}.id'):
-                    res.append('ID:' + t)
+                # by value: the message's flags are FL (no TC bit), its id the symbol ID; what is written is FL, FL | TC, 0 or ID
+                v = evl.ev(c.args[0])
+                if isinstance(v, int) and not isinstance(v, bool) and (v & ~tcbit) == FL and FL != 0:
+                    res.append('FLAGS|TC' if v & tcbit else 'FLAGS')
+                elif v == 0 and not isinstance(v, bool) and isinstance(v, int):
+                    res.append('ID:0')
+                elif v == IDSYM:
+                    res.append(f'ID:{me}.id')
         return res
+
+    FL = 0x8400 & ~tcbit
+    IDSYM = fd.Sym('ID')
 
     offs = _section_offsets(pk)
     # what remains is stated per section: every test `offset < len(self.<list>)` and every one-expression helper over such
@@ -527,7 +531,7 @@ def tc(ctx: Any) -> List[Ob]:
         more = bool(remain)
         for query in (True, False):
             for mc in (True, False):
-                atoms = {'.is_query()': query, f'{me}.multicast': mc, f'{me}.state': 0, 'LOGGING_IS_ENABLED_FOR()': False, '.data': [b'x']}
+                atoms = {'.is_query()': query, f'{me}.multicast': mc, f'{me}.state': 0, 'LOGGING_IS_ENABLED_FOR()': False, '.data': [b'x'], f'{me}.flags': FL, f'{me}.id': IDSYM}
                 for n in probes:
                     atoms[norm(n)] = _remains_value(prog, pk, n, set(remain), offs)
                 oc, und = traces(ctx, pk, atoms, eff, loop_bound=1)
